@@ -18,6 +18,7 @@
 
 mod net;
 mod refwalk;
+mod stock;
 
 use std::collections::BTreeSet;
 use std::sync::Arc;
@@ -380,6 +381,198 @@ fn judge_retry(case: &Case, attempts: usize, obs: &Obs, sends: &[CallerObs], l: 
         l.outcome("retry:answer-on-a-later-attempt");
     }
     l.outcome(&format!("retry:attempts-used={}", sends.len()));
+}
+
+// ------------------------------------------------------------------------------------------
+// family (vi): the stock ConnectionProvider over a simulated RuntimeProvider
+
+#[derive(Clone, Debug)]
+struct StockCase {
+    servers: Vec<stock::StockSrv>,
+    /// ResolverOpts::connect_timeout (ms); ResolverOpts::timeout is T_MS
+    connect_ms: u64,
+    conc: usize,
+    strategy: String,
+    /// 0: every other knob at its default (case_randomization off, EDNS on, port 53, no bind address);
+    /// 1: every other knob off its default (case_randomization on, EDNS off, port 5353, bind
+    ///    address set, max_active_requests 2, os_port_selection on, avoid_local_udp_ports set)
+    profile: u8,
+}
+
+impl StockCase {
+    fn to_json(&self) -> Value {
+        json!({
+            "family": "stock",
+            "timeout_ms": T_MS,
+            "connect_timeout_ms": self.connect_ms,
+            "num_concurrent_reqs": self.conc,
+            "strategy": self.strategy,
+            "profile": self.profile,
+            "stock_servers": self.servers.iter().map(|s| s.to_json()).collect::<Vec<_>>(),
+        })
+    }
+    fn from_json(v: &Value) -> StockCase {
+        StockCase {
+            servers: v["stock_servers"].as_array().unwrap().iter().map(stock::StockSrv::from_json).collect(),
+            connect_ms: v["connect_timeout_ms"].as_u64().unwrap_or(400),
+            conc: v["num_concurrent_reqs"].as_u64().unwrap_or(1) as usize,
+            strategy: v["strategy"].as_str().unwrap_or("user").to_string(),
+            profile: v["profile"].as_u64().unwrap_or(0) as u8,
+        }
+    }
+    /// The servers under the DOCUMENTED meaning of the two timeouts: a connection attempt is
+    /// bounded by connect_timeout, every request by timeout (the lookup as a whole by the pool's
+    /// deadline, which the walk applies).
+    fn documented(&self) -> Vec<Srv> {
+        let (t, c) = (T_MS, self.connect_ms);
+        let reply = |r: stock::Reply| match r {
+            Some(d) if d < t => Step::Answer(d),
+            _ => Step::Silent,
+        };
+        self.servers
+            .iter()
+            .enumerate()
+            .map(|(i, s)| Srv {
+                udp: match s.proto {
+                    0 => Script::constant(reply(s.udp_reply)),
+                    2 => Script::constant(Step::Truncated(10)),
+                    _ => Script::constant(Step::Silent),
+                },
+                tcp: if s.proto == 0 { None } else { Some(Script::constant(reply(s.tcp_reply))) },
+                tcp_conn: Script::constant(match s.conn {
+                    stock::Conn::After(d) if d < c => ConnStep::OkAfter(d),
+                    stock::Conn::After(_) | stock::Conn::BlackHole => ConnStep::Timeout(c),
+                    stock::Conn::Refused => ConnStep::Refused(4),
+                }),
+                trust_nx: true,
+                srtt: 10 + 3 * i as u32,
+                no_udp: s.proto == 1,
+            })
+            .collect()
+    }
+    fn as_case(&self) -> Case {
+        Case::single("stock", self.documented(), &self.strategy, 0, self.conc)
+    }
+}
+
+fn execute_stock(sc: &StockCase) -> (Obs, Vec<Option<u64>>) {
+    vsim::install_hook_clock_tokio();
+    let rt = vsim::rt();
+    let out = rt.block_on(async {
+        let sim = stock::SimRt::new(sc.servers.clone());
+        let mut opts = ResolverOpts::default();
+        opts.timeout = Duration::from_millis(T_MS);
+        opts.connect_timeout = Duration::from_millis(sc.connect_ms);
+        opts.num_concurrent_reqs = sc.conc;
+        opts.server_ordering_strategy = match sc.strategy.as_str() {
+            "user" => ServerOrderingStrategy::UserProvidedOrder,
+            "roundrobin" => ServerOrderingStrategy::RoundRobin,
+            _ => ServerOrderingStrategy::QueryStatistics,
+        };
+        opts.case_randomization = sc.profile == 1;
+        opts.edns0 = sc.profile == 0;
+        if sc.profile == 1 {
+            opts.max_active_requests = 2;
+            opts.os_port_selection = true;
+            opts.avoid_local_udp_ports = Arc::new([5353u16, 5355].into_iter().collect());
+        }
+        let cx = Arc::new(PoolContext::new(opts.clone(), TlsConfig::new().unwrap()));
+        let nss = sc
+            .servers
+            .iter()
+            .enumerate()
+            .map(|(i, s)| {
+                let ip = server_ip(i);
+                let mut cfg = match s.proto {
+                    0 => NameServerConfig::udp(ip),
+                    1 => NameServerConfig::tcp(ip),
+                    _ => NameServerConfig::udp_and_tcp(ip),
+                };
+                for c in cfg.connections.iter_mut() {
+                    c.port = s.port;
+                    if sc.profile == 1 {
+                        c.bind_addr = Some("198.18.0.9:0".parse().unwrap());
+                    }
+                }
+                // the stock provider: `SimRt` is a RuntimeProvider, hence a ConnectionProvider
+                let ns = NameServer::new([], cfg, &opts, sim.clone());
+                ns.verif_set_srtt(10 + 3 * i as u32);
+                Arc::new(ns)
+            })
+            .collect();
+        let pool = NameServerPool::from_nameservers(nss, cx);
+        sim.st.lock().unwrap().t0 = tokio::time::Instant::now();
+        let start = sim.ms();
+        let mut ropts = DnsRequestOptions::default();
+        ropts.use_edns = sc.profile == 0;
+        let fut = async { pool.lookup(Query::new(qname(TAG_MAIN), RecordType::A), ropts).next().await };
+        let (res, hung) = match tokio::time::timeout(Duration::from_millis(HORIZON_MS), fut).await {
+            Ok(r) => (Some(classify(r)), false),
+            Err(_) => (None, true),
+        };
+        let end = sim.ms();
+        let g = sim.st.lock().unwrap();
+        let caller = CallerObs { start, end: if hung { None } else { Some(end) }, res, cancelled: false, panicked: None };
+        (Obs { callers: vec![caller], followups: vec![], log: g.log.clone(), servers: sc.documented(), hung }, g.connect_timeouts_seen.clone())
+    });
+    drop(rt);
+    out
+}
+
+fn run_stock(sc: &StockCase, l: &mut Local) -> Obs {
+    l.eval();
+    let (obs, seen) = execute_stock(sc);
+    let case = sc.as_case();
+    let wit = || {
+        let mut j = sc.to_json();
+        j["documented_servers"] = json!(obs.servers.iter().map(|s| s.to_json()).collect::<Vec<_>>());
+        j["connect_tcp_called_with_timeout_ms"] = json!(seen);
+        j["observed"] = obs.to_json();
+        j
+    };
+    if obs.hung {
+        l.violation("no-completion", "a lookup through the stock connection provider did not complete", wit);
+        return obs;
+    }
+    judge_lookup(&case, &obs, &obs.callers[0], owner_id(0), l, &wit);
+    l.outcome("stock-provider-case");
+    if let Some(Res::Answer { tcp: true, .. }) = obs.callers[0].res {
+        l.outcome("stock:answer-over-real-tcp-stack");
+    }
+    if let Some(Res::Answer { tcp: false, .. }) = obs.callers[0].res {
+        l.outcome("stock:answer-over-real-udp-stack");
+    }
+    obs
+}
+
+/// Behaviour alphabet of one server for connect timeout `c` (timeout T_MS): delays just below a
+/// bound are 50 ms below it, "between" is the midpoint of the two bounds.
+fn stock_behaviours(c: u64, port: u16) -> Vec<stock::StockSrv> {
+    let t = T_MS;
+    let mut delays: Vec<u64> = vec![10, c.min(t) - 50, t - 50];
+    if c != t {
+        delays.push((c + t) / 2);
+    }
+    delays.sort();
+    delays.dedup();
+    let mut replies: Vec<stock::Reply> = delays.iter().map(|d| Some(*d)).collect();
+    replies.push(None);
+    let mut conns: Vec<stock::Conn> = vec![stock::Conn::After(0), stock::Conn::After(c - 50), stock::Conn::BlackHole, stock::Conn::Refused];
+    if c != t {
+        conns.push(stock::Conn::After((c + t) / 2));
+    }
+    let mut out = vec![];
+    for r in &replies {
+        out.push(stock::StockSrv { proto: 0, udp_reply: *r, conn: stock::Conn::Refused, tcp_reply: None, port });
+    }
+    for proto in [1u8, 2] {
+        for conn in &conns {
+            for r in &replies {
+                out.push(stock::StockSrv { proto, udp_reply: None, conn: *conn, tcp_reply: *r, port });
+            }
+        }
+    }
+    out
 }
 
 /// Execute one case on the real pool. Deterministic function of (case, chooser prefix).
@@ -946,6 +1139,7 @@ fn behaviour_srv(b: u64, i: usize, tcp_mode: u64, trust: bool, srtt: u32) -> Srv
         tcp_conn: Script::constant(if tcp_mode == 0 { ConnStep::Ok } else { ConnStep::Refused(ft) }),
         trust_nx: trust,
         srtt,
+ no_udp: false,
     }
 }
 
@@ -1133,6 +1327,7 @@ fn refine_configs(thorough: bool) -> Vec<Case> {
                                     tcp_conn: Script::constant(ConnStep::Ok),
                                     trust_nx: trust,
                                     srtt: 10 + 3 * i as u32,
+ no_udp: false,
                                 })
                                 .collect();
                             let mut c = Case::single("refine", servers, strategy, warmups, conc);
@@ -1303,7 +1498,10 @@ fn main() {
     if let Some((_key, case)) = ctx.replay_case() {
         let case = Case::from_json(&case);
         ctx.with_local(|l| {
-            if case.family == "retry" {
+            if case.family == "stock" {
+                let sc = StockCase::from_json(&ctx.replay_case().unwrap().1);
+                run_stock(&sc, l);
+            } else if case.family == "retry" {
                 let attempts = ctx.replay_case().map(|(_, v)| v["retry_attempts"].as_u64().unwrap_or(1) as usize).unwrap_or(1);
                 l.eval();
                 let (obs, sends) = execute_retry(&case, attempts);
@@ -1334,6 +1532,7 @@ fn main() {
          (iii) k in {2,3} identical callers + one different query, arrival and at most one (thorough: two) cancellation(s) (creator and/or waiters) at the instants \
          just before/after every upstream event of the scenario, plus arrival just after completion and a follow-up after quiescence; the different query arrives at t0 or mid-flight. \
          (v) RetryDnsHandle::new(pool, attempts 0..2 (3)) over 1-2 servers each failing k=1..3 (4) times with one of {io-error, silent, busy, SERVFAIL, untrusted NXDOMAIN, reset} before answering (or answering / trusted NXDOMAIN at once): every pool lookup judged as in (i), at most attempts+1 of them, the last one's result returned, responses never retried, io-errors/timeouts retried while attempts remain, total <= (attempts+1) x timeout. \
+         (vi) the pool through hickory's STOCK ConnectionProvider (connection_provider.rs) over a simulated RuntimeProvider (scripted connect_tcp / bind_udp, simulated TCP byte streams and UDP sockets speaking real wire format; real UdpClientStream, TcpClientStream::exchange, DnsMultiplexer, DnsExchange inside): timeout T=1000 x connect_timeout C in {400 (C<T), 1000 (C=T), 1600 (C>T)} x 1-2 servers, each {UDP-only: answer after {10, min(C,T)-50, (C+T)/2, T-50, never}; TCP-only and UDP(truncates)+TCP: connect {at once, after C-50, after (C+T)/2, black hole, refused} x answer after the same delays} (quick: one server of a pair from a 6-element partner set) x num_concurrent_reqs {1,2} x strategy {user; thorough also QueryStatistics} x profile {all other knobs default | all off default: case_randomization, EDNS off, port 5353, bind_addr, max_active_requests 2, os_port_selection, avoid_local_udp_ports}; judged by the same oracle against the DOCUMENTED meaning of the two timeouts (connect bounded by connect_timeout, every request by timeout, the lookup by the pool deadline). \
          timeout = 1000 ms virtual. Oracle: completion - start <= timeout; result sound (answer produced by a completed exchange, never TC when TCP is healthy); \
          a definitive result whenever every admissible reading of the documented search procedure (reference walk) reaches one strictly within the budget; \
          untrusted NXDOMAIN never ends the search; truncated UDP is followed by a TCP attempt; overlapping identical callers cause no exchange of their own and get the creator's result. \
@@ -1499,6 +1698,7 @@ fn main() {
                         tcp_conn: Script::constant(ConnStep::Ok),
                         trust_nx: behaviours[*b].2,
                         srtt: 10 + 3 * i as u32,
+ no_udp: false,
                     })
                     .collect();
                 for conc in 1..=n {
@@ -1528,6 +1728,60 @@ fn main() {
         });
     }
 
+    // ---------------- (vi) stock ConnectionProvider over the simulated RuntimeProvider
+    {
+        let mut jobs: Vec<StockCase> = vec![];
+        for connect_ms in [400u64, 1000, 1600] {
+            for profile in [0u8, 1] {
+                let port = if profile == 0 { 53 } else { 5353 };
+                let beh = stock_behaviours(connect_ms, port);
+                // a few fixed partners for the two-server cases of the quick tier
+                let partners: Vec<usize> = beh
+                    .iter()
+                    .enumerate()
+                    .filter(|(_, b)| {
+                        (b.proto == 0 && (b.udp_reply == Some(10) || b.udp_reply.is_none()))
+                            || (b.proto != 0 && b.conn == stock::Conn::After(0) && b.tcp_reply == Some(10))
+                            || (b.proto == 1 && b.conn == stock::Conn::BlackHole && b.tcp_reply == Some(10))
+                    })
+                    .map(|(i, _)| i)
+                    .collect();
+                for a in 0..beh.len() {
+                    jobs.push(StockCase { servers: vec![beh[a].clone()], connect_ms, conc: 1, strategy: "user".into(), profile });
+                    for b in 0..beh.len() {
+                        if !thorough && !partners.contains(&a) && !partners.contains(&b) {
+                            continue;
+                        }
+                        for conc in [1usize, 2] {
+                            for strategy in ["user", "querystats"] {
+                                if strategy != "user" && (profile == 1 || !thorough && !(partners.contains(&a) && partners.contains(&b))) {
+                                    continue;
+                                }
+                                jobs.push(StockCase { servers: vec![beh[a].clone(), beh[b].clone()], connect_ms, conc, strategy: strategy.into(), profile });
+                            }
+                        }
+                    }
+                }
+            }
+        }
+        ctx.set("stock_provider_cases", json!(jobs.len()));
+        ctx.par_run(jobs.len() as u64, 8, |i, l| {
+            let sc = &jobs[i as usize];
+            let obs = run_stock(sc, l);
+            l.nontrivial(fnv_str(&sc.to_json().to_string()));
+            if i % 16 == 0 {
+                let (again, _) = execute_stock(sc);
+                if again.digest() != obs.digest() {
+                    ctx.machinery_failure(&format!("nondeterminism: stock-provider case {} gave two different observations", sc.to_json()));
+                }
+                l.outcome("selftest:replayed-identically");
+            }
+            if i % 2003 == 0 {
+                l.sample(json!({"family": "stock", "case": sc.to_json(), "result": obs.callers[0].res.as_ref().map(|r| r.class()), "elapsed_ms": obs.callers[0].end}));
+            }
+        });
+    }
+
     // ---------------- vacuity
     for class in [
         "answer-after-transport-fault",
@@ -1541,6 +1795,8 @@ fn main() {
         "retry:answer-on-a-later-attempt",
         "retry:attempts-used=1",
         "retry:attempts-used=3",
+        "stock:answer-over-real-tcp-stack",
+        "stock:answer-over-real-udp-stack",
         "shared-with-creator",
         "waiter-survived-creator-cancel",
         "selftest:replayed-identically",
